@@ -301,7 +301,14 @@ class Exec(ExecExpr):
         for name, text in c.lets.items():
             lets[name] = sev.value(text)
         for lab, text in c.labelled(c.requires):
-            self.oblige(st, sev.bool(text), 'pre[%s]@call#%d(%s)' % (lab, k, short), 'pre-of-callee')
+            g = sev.bool(text)
+            st2 = st
+            if sev.typing:
+                st2 = st.copy()
+                for f in sev.typing:
+                    st2.assume(f)
+            self.oblige(st2, g, 'pre[%s]@call#%d(%s)' % (lab, k, short), 'pre-of-callee')
+            st.assume(g)        # proved separately; available to the rest of the path
         old = st.copy()
         normals, raises = [], []
         # exceptional outcome (may-raise): ONE outcome with a symbolic class, constrained by the disjunction of the
@@ -368,7 +375,7 @@ class Exec(ExecExpr):
                 st.heap[f] = fresh('H_' + f, FieldArr)
             elif m.startswith('list(') or m.startswith('dict('):
                 target = SP.SpecEval(old, env, modname, extra=lets).value(m[5:-1])
-                a = va(val_of(target))
+                a = z3.simplify(va(val_of(target)))
                 if m.startswith('list('):
                     st.L = z3.Store(st.L, a, fresh('lst', SeqVal))
                 else:
@@ -384,7 +391,7 @@ class Exec(ExecExpr):
             elif '.' in m:
                 objtext, f = m.rsplit('.', 1)
                 target = SP.SpecEval(old, env, modname, extra=lets).value(objtext)
-                st.heap[f] = z3.Store(st.field(f), va(val_of(target)), fresh('h_' + f, Val))
+                st.heap[f] = z3.Store(st.field(f), z3.simplify(va(val_of(target))), fresh('h_' + f, Val))
             else:
                 raise Unsupported('modifies entry %r of %s' % (m, c.qual))
         if not c.pure:
